@@ -1,7 +1,7 @@
 """C12 — inventory homomorphism and running balance on generated ledgers."""
 from decimal import Decimal
 
-from beancount.core import inventory
+from beancount.core import convert, inventory
 
 import ledgers
 
@@ -73,7 +73,8 @@ def sums_layer(ctx, conn):
     rng = ctx.rng
     for where in WHERES:
         w = ' WHERE ' + where if where else ''
-        for key in ('account', 'currency', 'year', "root(account, 1)", None):
+        for key in ('account', 'currency', 'year', "root(account, 1)", None, 'payee', 'cost_currency', "meta('note')"):
+            # (the last three keys are NULL for part of the postings: those postings form the NULL group)
             sel = 'SELECT %s AS k, position FROM #postings%s' % (key or "'all'", w)
             rows = conn.execute(sel).fetchall()
             groups = {}
@@ -129,6 +130,39 @@ def sums_layer(ctx, conn):
                         ctx.record_violation('f-of-sum-differs-from-sum-of-f:' + f.split('(')[0], '%s: %s: %s vs %s' % (q, acc_name, a, b),
                                              payload={'query': q})
                         break
+
+
+def nested_sums_layer(ctx, conn):
+    """sums of inventories that come out of a subquery, consumed more than once in the outer statement: every consumer sees
+    the same values, and the inner rows are not altered by being summed"""
+    inner = 'SELECT account, root(account, 1) AS r, sum(position) AS total FROM #postings GROUP BY account, r'
+    rows = conn.execute(inner).fetchall()
+    want_all = inventory.Inventory()
+    by_root = {}
+    for account, r, total in rows:
+        want_all.add_inventory(total)
+        by_root.setdefault(r, inventory.Inventory()).add_inventory(total)
+    q = 'SELECT sum(total) AS a, units(sum(total)) AS u, cost(sum(total)) AS c, sum(total) AS again, first(total) AS f, last(total) AS l FROM (%s)' % inner
+    got = conn.execute(q).fetchall()
+    ctx.evaluations += 1
+    ctx.count('nested-sums')
+    if got:
+        a, u, c, again, f, l = got[0]
+        problems = []
+        if a != want_all or again != want_all:
+            problems.append('sum(total) = %s / %s, expected %s' % (a, again, want_all))
+        if u != want_all.reduce(convert.get_units) or c != want_all.reduce(convert.get_cost):
+            problems.append('units / cost of the sum differ from reducing the expected sum')
+        if rows and (f != rows[0][2] or l != rows[-1][2]):
+            problems.append('first(total) = %s (row value %s), last(total) = %s (row value %s)' % (f, rows[0][2], l, rows[-1][2]))
+        if problems:
+            ctx.record_violation('nested-sum-of-inventories', '%s: %s' % (q, '; '.join(problems)), payload={'query': q})
+    q2 = 'SELECT r, sum(total) AS a, sum(total) AS b FROM (%s) GROUP BY r' % inner
+    for r, a, b in conn.execute(q2).fetchall():
+        ctx.evaluations += 1
+        if a != by_root.get(r) or b != by_root.get(r):
+            ctx.record_violation('nested-sum-of-inventories', '%s: group %s: %s / %s, expected %s' % (q2, r, a, b, by_root.get(r)), payload={'query': q2})
+            break
 
 
 def balance_layer(ctx, conn):
@@ -209,6 +243,7 @@ def run(ctx):
         text, entries, errors, options = ledgers.gen_ledger(rng, ntxn=rng.range(8, 25))
         conn = ledgers.connect(entries, errors, options)
         sums_layer(ctx, conn)
+        nested_sums_layer(ctx, conn)
         balance_layer(ctx, conn)
         if ctx.stop():
             return
